@@ -1,10 +1,329 @@
 /-
-  Lemmas about the PEP 440 model (Model/Pep440.lean).
+  Lemmas about the PEP 440 model (Model/Pep440.lean): the recogniser run on
+  the printed form of a well-formed version returns the capture groups the
+  printer wrote, hence `parse (toStr v) = some v`.
 -/
 import ClairModel.Model.Pep440
 import ClairModel.Proofs.Version
 
 namespace ClairModel.Pep440
 open ClairModel.Order ClairModel.Version
+
+/-! ### scanning helpers -/
+
+/-- `r` does not start with a digit. -/
+def NoDigitHead (r : List Char) : Prop := spanDigits r = ([], r)
+
+theorem noDigitHead_nil : NoDigitHead [] := rfl
+
+theorem noDigitHead_cons {c : Char} (r : List Char) (h : isDigit c = false) : NoDigitHead (c :: r) := by
+  simp [NoDigitHead, spanDigits, h]
+
+theorem spanDigits_append {l r : List Char} (hl : ∀ c ∈ l, IsDigChar c) (hr : NoDigitHead r) :
+    spanDigits (l ++ r) = (l, r) := by
+  induction l with
+  | nil => exact hr
+  | cons c cs ih =>
+    have hc : isDigit c = true := (hl c List.mem_cons_self).isDigit
+    have := ih (fun x hx => hl x (List.mem_cons_of_mem _ hx))
+    simp [spanDigits, hc, this]
+
+theorem isDig_cons {l : List Char} (h : IsDig l) : ∃ d cs, d < 10 ∧ l = digitChar d :: cs := by
+  cases l with
+  | nil => exact absurd rfl h.1
+  | cons c cs =>
+    obtain ⟨d, hd, rfl⟩ := h.2 c List.mem_cons_self
+    exact ⟨d, cs, hd, rfl⟩
+
+theorem digChar_facts2 : ∀ d, d < 10 →
+    isSep (digitChar d) = false ∧ digitChar d ≠ 'l' ∧ digitChar d ≠ 'e' ∧ digitChar d ≠ 'c' ∧
+    digitChar d ≠ 'r' ∧ digitChar d ≠ 'v' ∧ digitChar d ≠ 'o' := by
+  decide
+
+/-- Text of the release components after the first: `.n` for each. -/
+def relTail (rs : List Nat) : List Char := rs.flatMap fun x => '.' :: natDigits x
+
+/-- `r` makes the release loop stop at once. -/
+def StopsRelease (r : List Char) : Prop := ∀ fuel, releaseTail fuel r = ([], r)
+
+theorem stopsRelease_nil : StopsRelease [] := by
+  intro fuel; cases fuel <;> simp [releaseTail]
+
+theorem stopsRelease_letter {c : Char} (r : List Char) (h : c ≠ '.') : StopsRelease (c :: r) := by
+  intro fuel; cases fuel <;> simp [releaseTail, h]
+
+theorem stopsRelease_dot_letter {c : Char} (r : List Char) (h : isDigit c = false) :
+    StopsRelease ('.' :: c :: r) := by
+  intro fuel; cases fuel <;> simp [releaseTail, spanDigits, h]
+
+theorem noDigitHead_relTail_append (xs : List Nat) {rest : List Char} (h : NoDigitHead rest) :
+    NoDigitHead (relTail xs ++ rest) := by
+  cases xs with
+  | nil => simpa [relTail] using h
+  | cons x xs => exact noDigitHead_cons _ (by decide)
+
+theorem releaseTail_append (rest : List Char) (hs : StopsRelease rest) (hn : NoDigitHead rest) :
+    ∀ (rs : List Nat) (fuel : Nat), rs.length ≤ fuel →
+      releaseTail fuel (relTail rs ++ rest) = (relTail rs, rest)
+  | [], fuel, _ => by simpa [relTail] using hs fuel
+  | x :: xs, 0, h => by simp at h
+  | x :: xs, fuel + 1, h => by
+    have ih := releaseTail_append rest hs hn xs fuel (by simpa using h)
+    have hsp : spanDigits (natDigits x ++ (relTail xs ++ rest)) = (natDigits x, relTail xs ++ rest) :=
+      spanDigits_append (natDigits_isDig x).2 (noDigitHead_relTail_append xs hn)
+    have hne : (natDigits x).isEmpty = false := by
+      cases hx : natDigits x with
+      | nil => exact absurd hx (natDigits_isDig x).1
+      | cons _ _ => rfl
+    have : relTail (x :: xs) ++ rest = '.' :: (natDigits x ++ (relTail xs ++ rest)) := by
+      simp [relTail, List.flatMap_cons]
+    rw [this]
+    simp only [releaseTail, hsp, hne, ih]
+    simp [relTail, List.flatMap_cons]
+
+theorem relTail_length (rs : List Nat) : rs.length ≤ (relTail rs).length := by
+  induction rs with
+  | nil => simp [relTail]
+  | cons x xs ih =>
+    simp only [relTail, List.flatMap_cons, List.length_append, List.length_cons] at ih ⊢
+    omega
+
+theorem joinWith_dot (x : Nat) (xs : List Nat) :
+    joinWith ['.'] ((x :: xs).map natDigits) = natDigits x ++ relTail xs := by
+  induction xs generalizing x with
+  | nil => simp [joinWith, relTail]
+  | cons y ys ih =>
+    simp only [List.map_cons] at ih ⊢
+    simp only [joinWith, ih y]
+    simp [relTail, List.flatMap_cons]
+
+/-! ### the printed pieces -/
+
+def preStr (label : List Char) (n : Nat) : List Char := if label ≠ [] then label ++ natDigits n else []
+def postStr (p : Nat) : List Char := if p ≠ 0 then '.' :: 'p' :: 'o' :: 's' :: 't' :: natDigits p else []
+def devStr (d : Nat) : List Char := if d ≠ 0 then '.' :: 'd' :: 'e' :: 'v' :: natDigits d else []
+
+def ValidLabel (l : List Char) : Prop := l = [] ∨ l = ['a'] ∨ l = ['b'] ∨ l = ['r', 'c']
+
+/-- What the labelled groups return on `label digits rest`. -/
+theorem labelled_hit (alts : List (List Char)) (l : List Char) (n : Nat) (rest : List Char)
+    (hl : ∀ c cs, l = c :: cs → isSep c = false)
+    (hfirst : firstAlt alts (l ++ (natDigits n ++ rest)) = some (l, natDigits n ++ rest))
+    (hne : l ≠ []) (hrest : NoDigitHead rest) :
+    labelled alts (l ++ (natDigits n ++ rest)) = some (l, natDigits n, rest) := by
+  have hopt : optSep (l ++ (natDigits n ++ rest)) = l ++ (natDigits n ++ rest) := by
+    cases l with
+    | nil => exact absurd rfl hne
+    | cons c cs => simp [optSep, hl c cs rfl]
+  obtain ⟨d, ds, hd, hds⟩ := isDig_cons (natDigits_isDig n)
+  have hsep : optSep (natDigits n ++ rest) = natDigits n ++ rest := by
+    rw [hds]; simp [optSep, (digChar_facts2 d hd).1]
+  have hsp := spanDigits_append (natDigits_isDig n).2 hrest
+  have hne' : (natDigits n).isEmpty = false := by rw [hds]; rfl
+  unfold labelled
+  rw [hopt, hfirst]
+  simp only [hsep, hsp, hne']
+  simp
+
+/-- The text after the release segment. -/
+def sufStr (label : List Char) (n p d : Nat) : List Char := preStr label n ++ (postStr p ++ devStr d)
+
+theorem natDigits_cons (n : Nat) : ∃ d cs, d < 10 ∧ natDigits n = digitChar d :: cs :=
+  isDig_cons (natDigits_isDig n)
+
+theorem pd_noDigitHead (p d : Nat) : NoDigitHead (postStr p ++ devStr d) := by
+  unfold postStr devStr
+  by_cases hp : p = 0 <;> by_cases hd : d = 0 <;> simp [hp, hd, noDigitHead_nil] <;>
+    exact noDigitHead_cons _ (by decide)
+
+theorem dev_noDigitHead (d : Nat) : NoDigitHead (devStr d) := by
+  unfold devStr
+  by_cases hd : d = 0 <;> simp [hd, noDigitHead_nil]
+  exact noDigitHead_cons _ (by decide)
+
+theorem suf_noDigitHead {label : List Char} (hl : ValidLabel label) (n p d : Nat) :
+    NoDigitHead (sufStr label n p d) := by
+  unfold sufStr preStr
+  rcases hl with rfl | rfl | rfl | rfl
+  · simpa using pd_noDigitHead p d
+  all_goals exact noDigitHead_cons _ (by decide)
+
+theorem pd_stops (p d : Nat) : StopsRelease (postStr p ++ devStr d) := by
+  unfold postStr devStr
+  by_cases hp : p = 0 <;> by_cases hd : d = 0 <;> simp [hp, hd, stopsRelease_nil] <;>
+    exact stopsRelease_dot_letter _ (by decide)
+
+theorem suf_stops {label : List Char} (hl : ValidLabel label) (n p d : Nat) :
+    StopsRelease (sufStr label n p d) := by
+  unfold sufStr preStr
+  rcases hl with rfl | rfl | rfl | rfl
+  · simpa using pd_stops p d
+  all_goals exact stopsRelease_letter _ (by decide)
+
+/-- The text from the release tail on never starts with `!`. -/
+theorem tail_no_bang {label : List Char} (hl : ValidLabel label) (rs : List Nat) (n p d : Nat) :
+    ∀ r, relTail rs ++ sufStr label n p d ≠ '!' :: r := by
+  intro r
+  cases rs with
+  | cons x xs => simp [relTail, List.flatMap_cons]
+  | nil =>
+    simp only [relTail, List.flatMap_nil, List.nil_append]
+    unfold sufStr preStr postStr devStr
+    rcases hl with rfl | rfl | rfl | rfl <;> by_cases hp : p = 0 <;> by_cases hd : d = 0 <;> simp [hp, hd]
+
+/-! ### the groups of the printed text -/
+
+theorem pre_none (p d : Nat) : labelled preAlts (postStr p ++ devStr d) = none := by
+  unfold postStr devStr
+  by_cases hp : p = 0 <;> by_cases hd : d = 0 <;>
+    simp [hp, hd, labelled, optSep, isSep, firstAlt, stripPrefix, preAlts]
+
+theorem pre_hit {label : List Char} (hl : ValidLabel label) (hne : label ≠ []) (n : Nat) (rest : List Char)
+    (hrest : NoDigitHead rest) :
+    labelled preAlts (label ++ (natDigits n ++ rest)) = some (label, natDigits n, rest) := by
+  obtain ⟨d, ds, hd, hds⟩ := natDigits_cons n
+  obtain ⟨_, f₁, f₂, f₃, _⟩ := digChar_facts2 d hd
+  apply labelled_hit preAlts label n rest _ _ hne hrest
+  · rcases hl with rfl | rfl | rfl | rfl <;> intro c cs h <;> simp at h <;> (try (obtain ⟨rfl, _⟩ := h; decide))
+  · rcases hl with rfl | rfl | rfl | rfl
+    · exact absurd rfl hne
+    all_goals (rw [hds]; simp [firstAlt, stripPrefix, preAlts, f₁.symm, f₂.symm, f₃.symm])
+
+theorem post_hit (p : Nat) (hp : p ≠ 0) (rest : List Char) (hrest : NoDigitHead rest) :
+    postGroup (postStr p ++ rest) = some ([], natDigits p, rest) := by
+  obtain ⟨d, ds, hd, hds⟩ := natDigits_cons p
+  have h := labelled_hit postAlts ['p', 'o', 's', 't'] p rest
+    (by intro c cs h; simp at h; obtain ⟨rfl, _⟩ := h; decide)
+    (by simp [firstAlt, stripPrefix, postAlts]) (by simp) hrest
+  have hopt : ∀ t, labelled postAlts ('.' :: t) = labelled postAlts t ∨ True := fun _ => Or.inr trivial
+  unfold postGroup postStr
+  simp only [hp, ne_eq, not_false_eq_true, if_true, List.cons_append]
+  -- the leading '.' is the optional separator of the labelled form
+  have : labelled postAlts ('.' :: 'p' :: 'o' :: 's' :: 't' :: (natDigits p ++ rest))
+      = labelled postAlts ('p' :: 'o' :: 's' :: 't' :: (natDigits p ++ rest)) := by
+    simp [labelled, optSep, isSep]
+  simp only [this]
+  simp only [List.cons_append, List.nil_append] at h
+  simp [h]
+
+theorem post_none (d : Nat) : postGroup (devStr d) = none := by
+  unfold devStr
+  by_cases hd : d = 0 <;> simp [hd, postGroup, labelled, optSep, isSep, firstAlt, stripPrefix, postAlts]
+
+theorem dev_hit (d : Nat) (hd : d ≠ 0) :
+    labelled devAlts (devStr d) = some (['d', 'e', 'v'], natDigits d, []) := by
+  have h := labelled_hit devAlts ['d', 'e', 'v'] d []
+    (by intro c cs h; simp at h; obtain ⟨rfl, _⟩ := h; decide)
+    (by simp [firstAlt, stripPrefix, devAlts]) (by simp) noDigitHead_nil
+  unfold devStr
+  simp only [hd, ne_eq, not_false_eq_true, if_true]
+  have : labelled devAlts ('.' :: 'd' :: 'e' :: 'v' :: natDigits d)
+      = labelled devAlts ('d' :: 'e' :: 'v' :: natDigits d) := by
+    simp [labelled, optSep, isSep]
+  simp only [List.cons_append, List.nil_append, List.append_nil] at h
+  rw [this, h]
+
+theorem dev_none : labelled devAlts [] = none := by
+  simp [labelled, optSep, firstAlt, stripPrefix, devAlts]
+
+/-- From the release segment on: what the rest of `matchHere` computes. -/
+theorem suffix_groups {label : List Char} (hl : ValidLabel label) (n p d : Nat) :
+    (match labelled preAlts (sufStr label n p d) with
+      | some (l, m, r) => (l, m, r)
+      | none => ([], [], sufStr label n p d))
+    = (label, (if label ≠ [] then natDigits n else []), postStr p ++ devStr d) := by
+  by_cases hne : label = []
+  · subst hne
+    simp [sufStr, preStr, pre_none]
+  · have := pre_hit hl hne n (postStr p ++ devStr d) (pd_noDigitHead p d)
+    simp [sufStr, preStr, hne, this]
+
+theorem post_groups (p d : Nat) :
+    (match postGroup (postStr p ++ devStr d) with
+      | some (a, b, r) => (a, b, r)
+      | none => ([], [], postStr p ++ devStr d))
+    = ([], (if p ≠ 0 then natDigits p else []), devStr d) := by
+  by_cases hp : p = 0
+  · subst hp; simp [postStr, post_none]
+  · simp [post_hit p hp (devStr d) (dev_noDigitHead d), hp]
+
+theorem dev_groups (d : Nat) :
+    (match labelled devAlts (devStr d) with
+      | some (_, m, _) => m
+      | none => [])
+    = (if d ≠ 0 then natDigits d else []) := by
+  by_cases hd : d = 0
+  · subst hd; simp [devStr, dev_none]
+  · simp [dev_hit d hd, hd]
+
+/-- The recogniser on the printed text, started at the release segment. -/
+theorem matchRest_printed (epochGroup : List Char) (r1 : Nat) (rs : List Nat)
+    {label : List Char} (hl : ValidLabel label) (n p d : Nat) :
+    matchRest epochGroup (natDigits r1 ++ (relTail rs ++ sufStr label n p d))
+    = { epoch := epochGroup, release := natDigits r1 ++ relTail rs, preL := label,
+        preN := if label ≠ [] then natDigits n else [], postN1 := [],
+        postN2 := if p ≠ 0 then natDigits p else [], devN := if d ≠ 0 then natDigits d else [] } := by
+  have hT : NoDigitHead (relTail rs ++ sufStr label n p d) :=
+    noDigitHead_relTail_append rs (suf_noDigitHead hl n p d)
+  have h₁ := spanDigits_append (natDigits_isDig r1).2 hT
+  have h₂ := releaseTail_append (sufStr label n p d) (suf_stops hl n p d) (suf_noDigitHead hl n p d) rs
+    (relTail rs ++ sufStr label n p d).length (by
+      have := relTail_length rs; simp only [List.length_append]; omega)
+  unfold matchRest
+  simp only [h₁, h₂, suffix_groups hl n p d, post_groups p d, dev_groups d]
+
+/-- The printed text: optional `epoch!`, then the release segment and the rest. -/
+def printed (e r1 : Nat) (rs : List Nat) (label : List Char) (n p d : Nat) : List Char :=
+  (if e ≠ 0 then natDigits e ++ ['!'] else []) ++ (natDigits r1 ++ (relTail rs ++ sufStr label n p d))
+
+def printedGroups (e r1 : Nat) (rs : List Nat) (label : List Char) (n p d : Nat) : Groups :=
+  { epoch := if e ≠ 0 then natDigits e else [], release := natDigits r1 ++ relTail rs, preL := label,
+    preN := if label ≠ [] then natDigits n else [], postN1 := [],
+    postN2 := if p ≠ 0 then natDigits p else [], devN := if d ≠ 0 then natDigits d else [] }
+
+theorem matchHere_printed (e r1 : Nat) (rs : List Nat) {label : List Char} (hl : ValidLabel label)
+    (n p d : Nat) : matchHere (printed e r1 rs label n p d) = some (printedGroups e r1 rs label n p d) := by
+  have hT : NoDigitHead (relTail rs ++ sufStr label n p d) :=
+    noDigitHead_relTail_append rs (suf_noDigitHead hl n p d)
+  obtain ⟨dr, csr, hdr, hr1⟩ := natDigits_cons r1
+  unfold printed printedGroups
+  by_cases he : e = 0
+  · subst he
+    simp only [ne_eq, not_true_eq_false, if_false, List.nil_append]
+    have h₀ := spanDigits_append (natDigits_isDig r1).2 hT
+    have hne : (natDigits r1).isEmpty = false := by rw [hr1]; rfl
+    unfold matchHere
+    simp only [h₀, hne]
+    have hbang := tail_no_bang hl rs n p d
+    -- the text after the first number does not start with `!`
+    cases hq : relTail rs ++ sufStr label n p d with
+    | nil =>
+      simp only [Bool.false_eq_true, if_false]
+      rw [← hq, matchRest_printed [] r1 rs hl n p d]
+    | cons c cs =>
+      have hc : c ≠ '!' := by
+        intro h; subst h; exact hbang cs hq
+      simp only [Bool.false_eq_true, if_false]
+      have : (match c :: cs with
+          | '!' :: r1' => (match r1' with
+              | c' :: _ => if isDigit c' then (natDigits r1, r1') else ([], natDigits r1 ++ c :: cs)
+              | [] => ([], natDigits r1 ++ c :: cs))
+          | _ => (([] : List Char), natDigits r1 ++ c :: cs)) = ([], natDigits r1 ++ c :: cs) := by
+        split
+        · rename_i h; simp only [List.cons.injEq] at h; exact absurd h.1 hc
+        · rfl
+      simp only [this]
+      rw [← hq, matchRest_printed [] r1 rs hl n p d]
+  · simp only [ne_eq, he, not_false_eq_true, if_true, List.append_assoc, List.singleton_append]
+    have hbangND : NoDigitHead ('!' :: (natDigits r1 ++ (relTail rs ++ sufStr label n p d))) :=
+      noDigitHead_cons _ (by decide)
+    have h₀ := spanDigits_append (natDigits_isDig e).2 hbangND
+    obtain ⟨de, cse, hde, he1⟩ := natDigits_cons e
+    have hne : (natDigits e).isEmpty = false := by rw [he1]; rfl
+    unfold matchHere
+    simp only [h₀, hne, Bool.false_eq_true, if_false]
+    rw [hr1]
+    simp only [List.cons_append, digitChar_isDigit dr hdr, if_true]
+    rw [← List.cons_append, ← hr1, matchRest_printed (natDigits e) r1 rs hl n p d]
 
 end ClairModel.Pep440
